@@ -74,7 +74,7 @@ def make_history(cfg, ledger, ops, tag=""):
     return dict(cfg=cfg, ledger=list(ledger), univ=universe(ops), ops=ops, tag=tag)
 
 
-def gen_structured(r, big=False, with_ledger=False):
+def gen_structured(r, big=False, with_ledger=False, with_query=False):
     k = r.choice([2, 2, 3, 3, 4])
     cfg = dict(batch=r.choice([1, 2, 2, 3, 4, 5, 8]), pool=r.choice([2, 3, 5, 8, 1000, 1000]),
                timed=r.choice([0, 0, 1]), height=r.choice([0, 1, 7, 100]))
@@ -214,6 +214,22 @@ def gen_structured(r, big=False, with_ledger=False):
             ops.append([2, fill + [r.choice([x, x, yy])]])
             ops.append([1])
             ops.append([6, 1])
+        elif 0.27 <= y < 0.33 and with_query:
+            # a fresh pool; an API goroutine asks for the pending nonce of an account that is not cached yet and its ledger
+            # look-up is slow; meanwhile the node admits, batches and commits the first nonces of that account
+            a = r.randrange(k)
+            led = [r.choice([0, 0, 2]) for _ in range(k)]
+            front = list(led)
+            m2 = r.choice([1, 2, 2, 3])
+            run = [new_tx(a, front[a] + i) for i in range(m2)]
+            front[a] += m2
+            ops.append([8, r.choice([1, 9]), led, a, 3])
+            ops.append([0, r.choice([0, 1]), 1, clock, run])
+            ops.append([1])
+            ops.append([2, run])
+            ops.append([0, 1, 1, clock + 1, [new_tx(a, front[a])]]); front[a] += 1
+            ops.append([1])
+            ops.append([6, 1])
         elif y < 0.27:
             # two batches of one account in flight, their commit reports arrive in the wrong order
             a = r.randrange(k)
@@ -348,7 +364,7 @@ def case_term(h, out):
             return "(CRemoveOld %d %d)" % (o[1], o[2])
         if c == 4:
             return "(CSetSeq %d)" % o[1]
-        if c == 5:
+        if c in (5, 8):
             return "(CRestart %d %s)" % (o[1], glist(o[2]))
         if c == 7:
             return "(CSetLedger %d %d)" % (o[1], o[2])
@@ -724,11 +740,11 @@ def run(ctx, pid):
     r = ctx.rng
     hists = corpus_histories(pid)
     ncorpus = len(hists)
-    n_struct, n_mal = (130, 30) if ctx.quick else (6000, 1200)
-    hists += [gen_structured(r, with_ledger=(i % 6 == 5)) for i in range(n_struct)]
+    n_struct, n_mal = (110, 24) if ctx.quick else (6000, 1200)
+    hists += [gen_structured(r, with_ledger=(i % 6 == 5), with_query=(i % 4 == 1)) for i in range(n_struct)]
     hists += [gen_malformed(r) for _ in range(n_mal)]
     if not ctx.quick:
-        hists += [gen_structured(r, big=True, with_ledger=(i % 6 == 5)) for i in range(1500)]
+        hists += [gen_structured(r, big=True, with_ledger=(i % 6 == 5), with_query=(i % 4 == 1)) for i in range(1500)]
         # exhaustive small scope: every sequence of length 4 over 11 symbols (2 accounts x nonces 0..2, generate,
         # commit per account, one generate+commit round, age rule), untimed batch 2 and timed batch 1; every
         # sequence of length 5 over 8 symbols (nonces 0..1, one commit symbol)
@@ -749,7 +765,7 @@ def run(ctx, pid):
             return ctx.finish(rule="-")
         verdicts += vs
     reported = set()
-    opk = {0: "process", 1: "generate", 2: "commit", 3: "remove_old", 4: "set_seq", 5: "restart", 6: "drain", 7: "set_ledger"}
+    opk = {0: "process", 1: "generate", 2: "commit", 3: "remove_old", 4: "set_seq", 5: "restart", 6: "drain", 7: "set_ledger", 8: "restart_with_concurrent_query"}
     for h, o, (v, soft) in zip(hists, outs, verdicts):
         ctx.traces_validated += 1
         nt = nontrivial(h, o)
